@@ -42,8 +42,39 @@ func pureSharding(d core.Desc) bool { return false }
 func checkMapOrder(c *core.Ctx, rule string, cone []*ssa.Function, exceptions []orderException) int {
 	ea := core.NewEffectAnalyzer()
 	n := 0
+	// an exception written for a function also covers the unexported helpers extracted from it: a
+	// function all of whose callers (inside the cone) are covered by the same exception owner
+	callers := map[*ssa.Function][]*ssa.Function{}
+	for _, fn := range cone {
+		core.Instrs(fn, func(in ssa.Instruction) {
+			if cc := core.CallOf(in); cc != nil && cc.StaticCallee() != nil && cc.StaticCallee() != fn {
+				callers[cc.StaticCallee()] = append(callers[cc.StaticCallee()], fn)
+			}
+		})
+	}
+	var owner func(fn *ssa.Function, d int) *ssa.Function
+	owner = func(fn *ssa.Function, d int) *ssa.Function {
+		for _, ex := range exceptions {
+			if ex.fn == fname(fn) {
+				return fn
+			}
+		}
+		if d > 2 || fn.Parent() != nil || ssaExported(fn) || len(callers[fn]) == 0 {
+			return nil
+		}
+		var o *ssa.Function
+		for _, cl := range callers[fn] {
+			co := owner(cl, d+1)
+			if co == nil || (o != nil && co != o) {
+				return nil
+			}
+			o = co
+		}
+		return o
+	}
 	for _, fn := range cone {
 		c.Analysed(core.QualName(fn))
+		exOwner := owner(fn, 0)
 		loops := core.MapLoops(fn)
 		for i, ml := range loops {
 			n++
@@ -55,10 +86,10 @@ func checkMapOrder(c *core.Ctx, rule string, cone []*ssa.Function, exceptions []
 			for _, is := range issues {
 				excused := false
 				for _, ex := range exceptions {
-					if ex.fn == fname(fn) && ex.kind == is.Kind && (ex.detail == "" || strings.Contains(is.Detail, ex.detail)) {
+					if exOwner != nil && ex.fn == fname(exOwner) && ex.kind == is.Kind && (ex.detail == "" || exOwner != fn || strings.Contains(is.Detail, ex.detail)) {
 						ok, why := true, ""
 						if ex.verify != nil {
-							ok, why = ex.verify(c, fn)
+							ok, why = ex.verify(c, exOwner)
 						}
 						if ok {
 							excused = true
